@@ -1,6 +1,6 @@
 #!/bin/bash
 # regenerate every claimed property's evidence on the current tree (quick tier), sequentially
-cd /verif
+cd "$(dirname "$0")/.."
 for P in $(python3 -c "import json;print(' '.join(c['property_id'] for c in json.load(open('MANIFEST.json'))['checks']))"); do
   s=$(date +%s)
   out=$(./check $P 2>&1 | grep -v "^KNOWN-FINDING" | tail -1 | cut -c1-170)
